@@ -46,15 +46,22 @@ func NewTCPGroupCtl(portManager *ports.Manager) *TCPGroupCtl {
 func (tgc *TCPGroupCtl) Listen(proxyName string, group string, groupKey string,
 	addr string, port int,
 ) (l net.Listener, realPort int, err error) {
+	// Hold the controller lock until the group has been joined, otherwise the last
+	// member may leave (closing and removing the group) between lookup and join.
 	tgc.mu.Lock()
+	defer tgc.mu.Unlock()
 	tcpGroup, ok := tgc.groups[group]
 	if !ok {
 		tcpGroup = NewTCPGroup(tgc)
 		tgc.groups[group] = tcpGroup
 	}
-	tgc.mu.Unlock()
 
-	return tcpGroup.Listen(proxyName, group, groupKey, addr, port)
+	l, realPort, err = tcpGroup.Listen(proxyName, group, groupKey, addr, port)
+	if err != nil && !ok {
+		// don't keep a group without members
+		delete(tgc.groups, group)
+	}
+	return
 }
 
 // RemoveGroup remove TCPGroup from controller
@@ -103,6 +110,7 @@ func (tg *TCPGroup) Listen(proxyName string, group string, groupKey string, addr
 		tcpLn, errRet := net.Listen("tcp", net.JoinHostPort(addr, strconv.Itoa(realPort)))
 		if errRet != nil {
 			err = errRet
+			tg.ctl.portManager.Release(realPort)
 			return
 		}
 		ln = newTCPGroupListener(group, tg, tcpLn.Addr())
@@ -161,6 +169,8 @@ func (tg *TCPGroup) Accept() <-chan net.Conn {
 
 // CloseListener remove the TCPGroupListener from the TCPGroup
 func (tg *TCPGroup) CloseListener(ln *TCPGroupListener) {
+	tg.ctl.mu.Lock()
+	defer tg.ctl.mu.Unlock()
 	tg.mu.Lock()
 	defer tg.mu.Unlock()
 	for i, tmpLn := range tg.lns {
@@ -173,7 +183,7 @@ func (tg *TCPGroup) CloseListener(ln *TCPGroupListener) {
 		close(tg.acceptCh)
 		tg.tcpLn.Close()
 		tg.ctl.portManager.Release(tg.realPort)
-		tg.ctl.RemoveGroup(tg.group)
+		delete(tg.ctl.groups, tg.group)
 	}
 }
 
